@@ -486,12 +486,14 @@ pub fn run_plain(case: &ConnCase, sched: &[SOp], m: &ModelOut, st: &mut Stats) -
 /// read; bit 1 = pop parsed requests only at the very end; mode 3 additionally answers every
 /// popped request... (with bit 1 set nothing is popped before the end, so mode 3 = drain + late pop).
 /// Mode 5 = pop each read, enqueue a response per request and push it out with short writes.
+/// Bit 4 = at most one request is popped per read (the rest stay queued across further reads).
 /// Bit 3 = the output side is lost between reads (clear_write_buffer(), or a write the stream refuses).
 pub fn run_plain_mode(case: &ConnCase, sched: &[SOp], m: &ModelOut, st: &mut Stats, mode: u8) -> PlainInfo {
     let drain_each = mode & 1 == 1;
     let pop_late = mode & 2 == 2;
     let answer = mode & 4 == 4;
     let output_lost = mode & 8 == 8;
+    let pop_one = mode & 16 == 16;
     let mut conn = Conn::new(case.stream.clone(), case.limit);
     let len = case.stream.len();
     let mut cur = SchedCursor::new(sched);
@@ -509,7 +511,13 @@ pub fn run_plain_mode(case: &ConnCase, sched: &[SOp], m: &ModelOut, st: &mut Sta
         let res = conn.try_read(op);
         st.lib_calls += 1;
         st.steps += 1;
-        let popped = if pop_late { Vec::new() } else { conn.pop_all() };
+        let popped = if pop_late {
+            Vec::new()
+        } else if pop_one {
+            conn.pop_one()
+        } else {
+            conn.pop_all()
+        };
         let pos = conn.pos();
         if !empty {
             data_reads += 1;
@@ -571,11 +579,17 @@ pub fn run_plain_mode(case: &ConnCase, sched: &[SOp], m: &ModelOut, st: &mut Sta
             }
         }
     }
-    if pop_late {
-        for (o, _) in conn.pop_all() {
+    if pop_late || pop_one {
+        let rest = conn.pop_all();
+        if pop_one && !rest.is_empty() {
+            st.probe("requests_left_queued_by_one_per_read_owner");
+        }
+        for (o, _) in rest {
             obs.reqs.push(o);
         }
-        st.probe("requests_popped_late");
+        if pop_late {
+            st.probe("requests_popped_late");
+        }
     }
     if obs.err.is_none() && obs.other.is_none() && case.eof && conn.remaining() == 0 {
         let res = conn.try_read(RdOp::Eof(0));
